@@ -194,6 +194,19 @@ func dumpTable(db Queryer, t string, o Options) ([]string, error) {
 			}
 			toks = append(toks, c+"="+val)
 		}
+		if isAddr {
+			// balance columns by name, not by physical position: a table upgraded in place may order them differently
+			var head, bals []string
+			for _, tk := range toks {
+				if strings.Contains(tk, "_balance=") {
+					bals = append(bals, tk)
+				} else {
+					head = append(head, tk)
+				}
+			}
+			sort.Strings(bals)
+			toks = append(head, bals...)
+		}
 		if isAddr && len(toks) == 1 && !o.KeepZeroAddressRows {
 			// only the address column is left: an all-zero row, which is
 			// indistinguishable from an absent row through every reader in pegnetd
